@@ -66,7 +66,7 @@ type rulesConfig struct {
 	// Will only contain non-deprecated RuleIDs.
 	// This will only contain RuleIDs of the given RuleType.
 	//
-	// Will always be non-empty.
+	// May be empty, in which case no checks must be run.
 	//
 	// If no specific RuleIDs were configured, this will return all default RuleIDs that were of
 	// the specified RuleType.
@@ -270,10 +270,10 @@ func newRulesConfig(
 		}
 		delete(resultRuleIDToRule, ruleID)
 	}
+	// resultRules may be empty: except can remove every rule that use selects, and a deprecated
+	// rule may have no replacement. This is a valid configuration that selects no rules; callers
+	// must not run any check in this case (logRulesConfig warns about it).
 	resultRules := slicesext.MapValuesToSlice(resultRuleIDToRule)
-	if len(resultRules) == 0 {
-		return nil, syserror.New("resultRules was empty")
-	}
 	sort.Slice(
 		resultRules,
 		func(i int, j int) bool {
